@@ -153,3 +153,41 @@ def keys_from_args(h):
                 ok, what = False, 'an ambiguous combination must raise'
             ctx.oblige('keys_from_args: ' + what, z3.BoolVal(bool(ok)))
         h.explore(body)
+
+
+@vc('C06.natural_key', functions=[J + 'natural_key'], props=['C06', 'C07'],
+    assumptions=['T6: a filtering comprehension is the order-preserving subsequence of the elements that satisfy the condition (exact model: index map + inverse)',
+                 'header() reads the header row only'])
+def natural_key(h):
+    """natural_key(left, right): the left field names that also occur among the right field names, in LEFT order (all of them, each
+    once per occurrence on the left); a single common field is returned as itself, not as a list; none at all is an error."""
+    def body(ctx):
+        it = h.interp(ctx)
+        it.exact_filters = True
+        L, R = sym_table(ctx, 'L', nmin=1), sym_table(ctx, 'R', nmin=1)
+        rows_are_sequences(ctx, L); rows_are_sequences(ctx, R)
+        try:
+            r = it.call(closure_of(it, J + 'natural_key'), [L, R], {})
+        except PyExc as e:
+            ctx.oblige('natural_key: only AssertionError (no fields in common) escapes', z3.BoolVal(e.kind == 'AssertionError'), e.origin or '')
+            return
+        pulled = [i.pos for t in (L, R) for i in getattr(t, 'iterators', [])]
+        ctx.oblige('natural_key: reads the two header rows and nothing else', z3.And([p <= 1 for p in pulled] + [z3.BoolVal(len(pulled) == 2)]))
+        lh, rh = src_row(L, 0), src_row(R, 0)
+        S = lambda v: bi._strf(v)
+        w = smt.fresh_int('w')
+        inR = lambda v: z3.Exists([w], z3.And(0 <= w, w < rh.len, smt.py_eq(S(z3.Select(rh.arr, w)), v)))
+        if isinstance(r, Seq):
+            idx, inv = r.filter_of
+            q, p = smt.fresh_int('q'), smt.fresh_int('p')
+            ctx.oblige('natural_key (several common fields): every element is the name of a left field that occurs on the right, in strictly increasing left position',
+                       z3.And(r.len >= 2, z3.ForAll([q], z3.Implies(z3.And(0 <= q, q < r.len),
+                                                                   z3.And(0 <= idx(q), idx(q) < lh.len, z3.Select(r.arr, q) == S(z3.Select(lh.arr, idx(q))), inR(z3.Select(r.arr, q)))))))
+            ctx.oblige('natural_key (several common fields): no common field is left out',
+                       z3.ForAll([p], z3.Implies(z3.And(0 <= p, p < lh.len, inR(S(z3.Select(lh.arr, p)))), z3.And(0 <= inv(p), inv(p) < r.len, idx(inv(p)) == p))))
+        else:
+            v = as_v(r)
+            p = smt.fresh_int('p')
+            ctx.oblige('natural_key (one common field): the result is that field name itself: the only left field that occurs on the right',
+                       z3.And(inR(v), z3.Exists([p], z3.And(0 <= p, p < lh.len, v == S(z3.Select(lh.arr, p))))))
+    h.explore(body)
